@@ -36,7 +36,7 @@ def examples(tier):
 @st.composite
 def strategy(draw, tier="quick"):
     boost = draw(st.sampled_from([True, True, False]))
-    g = draw(gen.grammar(regimes=["BOOL", "BOOL", "FLOAT"], boost=boost, max_terms=4))
+    g = draw(gen.grammar(regimes=["BOOL", "BOOL", "FLOAT"], boost=boost, max_terms=4, **gen.size(tier)))
     return {
         "g": g,
         "alg": draw(st.sampled_from(["earley", "cky"])),
